@@ -37,6 +37,7 @@ type C11Case struct {
 	NMUU    int      `json:"nMuu,omitempty"`    // extra multipleUnitUsage entries (0-2)
 	NCont   int      `json:"nCont,omitempty"`   // extra used-unit containers in the first entry (0-2)
 	Pad     int      `json:"pad,omitempty"`     // insignificant white space inside the JSON document (octets)
+	CT      string   `json:"ct,omitempty"`      // Content-Type header of the request ("": application/json; "-": none)
 	NoNotif bool     `json:"noNotif,omitempty"` // the session addressed by update/release/recharge was created without the optional notifyUri
 }
 
@@ -59,7 +60,10 @@ func genC11(t *rapid.T) C11Case {
 	c.NMUU = rapid.SampledFrom([]int{0, 0, 1, 2}).Draw(t, "nMuu")
 	c.NCont = rapid.SampledFrom([]int{0, 0, 1, 2}).Draw(t, "nCont")
 	c.PDU = rapid.Bool().Draw(t, "pdu")
-	c.Reg = rapid.IntRange(0, 4).Draw(t, "reg") == 0
+	c.Reg = rapid.IntRange(0, 2).Draw(t, "reg") == 0
+	if rapid.IntRange(0, 4).Draw(t, "otherContentType") == 0 {
+		c.CT = rapid.SampledFrom([]string{"-", "application/json; charset=utf-8", "application/problem+json", "text/plain", "application/xml", "multipart/related; boundary=----Boundary", "multipart/related", "application/x-www-form-urlencoded", "*/*", "APPLICATION/JSON"}).Draw(t, "contentType")
+	}
 	c.Q = rapid.SampledFrom([]string{"ONLINE_CHARGING", "ONLINE_CHARGING", "OFFLINE_CHARGING", "QUOTA_MANAGEMENT_SUSPENDED", "", "BOGUS"}).Draw(t, "q")
 	c.Trig = rapid.SampledFrom([]string{"", "", "FINAL", "VOLUME_LIMIT", "MANAGEMENT_INTERVENTION", "BOGUS"}).Draw(t, "trig")
 	c.NoNotif = rapid.IntRange(0, 3).Draw(t, "noNotif") == 0
@@ -283,6 +287,9 @@ func (c C11Case) classify(v *h.Verdict) {
 	if c.Garbage != "" {
 		v.Label("not-a-charging-data-request")
 	}
+	if c.CT != "" {
+		v.NT("content-type:other")
+	}
 	if c.Pad > 65000 && c.Garbage == "" && c.Route != "recharge" {
 		v.NT("body>64KiB")
 	}
@@ -372,7 +379,14 @@ func judgeC11(c C11Case) *h.Verdict {
 		if c.Route != "recharge" {
 			body = c.body(supi, cid, 2)
 		}
-		code, rb, _ = doHTTP(method, path, body, nil)
+		var hdr map[string]string
+		if c.CT != "" {
+			hdr = map[string]string{"Content-Type": c.CT}
+			if c.CT == "-" {
+				hdr = map[string]string{"Content-Type": ""}
+			}
+		}
+		code, rb, _ = doHTTP(method, path, body, hdr)
 	}()
 	select {
 	case <-done:
